@@ -9,7 +9,7 @@ import itertools
 import z3
 
 from .types import (INT, REAL, BOOL, STR, NONE, SLICE, FUNC, MODULE, RECORD, TAbs, TSeq, TSet, TOpt, TTuple,
-                    TDict, TPy, SV, T, parse_type)
+                    TDict, TPy, TIter, SV, T, parse_type)
 from .spec import Contract, Loop, Lemma, Ghost
 
 
@@ -44,6 +44,7 @@ class State:
         self.pending_exc = []  # (cond z3, exc name) collected while evaluating a statement's expressions
         self.path = []        # human-readable branch decisions
         self.spec = False
+        self.seen = set()     # definitional facts already assumed on this path (term-id keyed)
 
     def fork(self):
         s = State()
@@ -56,6 +57,9 @@ class State:
         s.path = list(self.path)
         s.spec = self.spec
         s.witness = getattr(self, "witness", {})
+        s.seen = set(self.seen)
+        if hasattr(self, "join_terms"):
+            s.join_terms = list(self.join_terms)
         return s
 
 
@@ -122,6 +126,21 @@ class Exec:
 
     def close(self, binders, z):
         """Universally close z over the binder variables (merging with z's own quantifier to keep its patterns)."""
+        # quantify only over the binder variables the fact depends on (a fact about terms that do not mention a
+        # bound variable - e.g. a definitional axiom of split(line, sep) - is assumed as it stands)
+        used = consts_in(z)
+        keep = [False] * len(binders)
+        changed = True
+        while changed:
+            changed = False
+            for bi, (vars_, c) in enumerate(binders):
+                if not keep[bi] and any(v.get_id() in used for v in vars_):
+                    keep[bi] = True
+                    used |= consts_in(c)
+                    changed = True
+        binders = [b for b, k in zip(binders, keep) if k]
+        if not binders:
+            return z
         vs = [v for (vars_, _) in binders for v in vars_]
         cond = z3.And(*[c for (_, c) in binders])
         if z3.is_quantifier(z) and z.is_forall() and z.num_patterns() > 0:
@@ -1346,6 +1365,13 @@ class Exec:
         c = self.c
         for pn, pt in list(c.params.items()) + list(c.free.items()):
             t = parse_type(pt)
+            if isinstance(t, TIter):
+                items = self.const(pn.replace(".", "_") + "_items", t.seq_t)
+                pos = z3.Const(pn.replace(".", "_") + "_pos", z3.IntSort())
+                st.hyps.append(z3.And(0 <= pos, pos <= t.seq_t.len(items.z), t.seq_t.len(items.z) >= 0))
+                st.env[pn] = SV(t, py={"seq": items, "pos": pos})
+                self.param_svs[pn + ".items"] = items
+                continue
             sv = self.const(pn.replace(".", "_"), t)
             st.env[pn] = sv
             self.param_svs[pn] = sv
@@ -1371,7 +1397,19 @@ class Exec:
         st.old = dict(st.env)
         return st
 
-    def declare_ghosts(self, st):
+    def declare_global(self, g):
+        args, res = g.sig.split("->")
+        asorts = [parse_type(a.strip()) for a in args.split(",") if a.strip()]
+        rt = parse_type(res.strip())
+        f = self.uf("G_" + g.name, *([a.sort() for a in asorts] + [rt.sort()]))
+        self.ghost_fns[g.name] = (f, asorts, rt)
+
+    def declare_ghosts(self, st, with_lemmas=True):
+        for g in self.c.global_ghosts:
+            self.declare_global(g)
+        for g in self.c.global_ghosts:
+            for ax in g.axioms:
+                st.hyps.append(self.spec(st, ax))
         for g in self.c.ghosts:
             args, res = g.sig.split("->")
             asorts = [parse_type(a.strip()) for a in args.split(",") if a.strip()]
@@ -1381,9 +1419,10 @@ class Exec:
         for g in self.c.ghosts:
             for ax in g.axioms:
                 st.hyps.append(self.spec(st, ax))
-        for l in self.c.lemmas:
-            if l.auto:
-                st.hyps.append(self.lemma_formula(st, l))
+        if with_lemmas:
+            for l in self.c.lemmas:
+                if l.auto:
+                    st.hyps.append(self.lemma_formula(st, l))
 
     def lemma_formula(self, st, l):
         bind = {}
@@ -1457,6 +1496,10 @@ class Exec:
             if isinstance(rt, TOpt):
                 res = SV(rt, rt.none())
         cur.env["result"] = res
+        # postconditions speak about the ENTRY values of (immutable) parameters, whatever the body rebinds
+        for pn in c.params:
+            if pn not in c.modifies and pn in cur.old:
+                cur.env[pn] = cur.old[pn]
         self.ghost_do(cur, c.exit_ghost, "exit%d" % n_exit)
         self.canaries.append(("exit%d-reachable" % n_exit, list(cur.hyps)))
         for k, e in enumerate(c.ensures):
@@ -1468,6 +1511,8 @@ class Exec:
             st = State()
             for pn, pt in list(self.c.params.items()) + list(self.c.free.items()):
                 t = parse_type(pt)
+                if isinstance(t, TIter):
+                    continue
                 sv = self.const(pn.replace(".", "_"), t)
                 st.env[pn] = sv
                 for f in self.wf(sv):
@@ -1477,14 +1522,15 @@ class Exec:
                 sv = self.const("self_" + fn_, t)
                 st.env["self." + fn_] = sv
             if not self.ghost_fns:
-                self.declare_ghosts(st)
+                self.declare_ghosts(st, with_lemmas=False)
             else:
                 for g in self.c.ghosts:
                     for ax in g.axioms:
                         st.hyps.append(self.spec(st, ax))
-                for l2 in self.c.lemmas:
-                    if l2.auto and l2.name != l.name and self.c.lemmas.index(l2) < self.c.lemmas.index(l):
-                        st.hyps.append(self.lemma_formula(st, l2))
+            # only lemmas proved EARLIER may be used (no circularity)
+            for l2 in self.c.lemmas:
+                if l2.auto and l2.name != l.name and self.c.lemmas.index(l2) < self.c.lemmas.index(l):
+                    st.hyps.append(self.lemma_formula(st, l2))
             st.old = dict(st.env)
             # lemmas may rely on the contract's requires only if they say so (hints == ["requires"])
             if "requires" in l.hints:
@@ -1526,6 +1572,30 @@ class Exec:
             self.ghost_do(st, l.uses, "lemma." + l.name)
             for k, e in enumerate(l.ensures):
                 self.oblige(st, "lemma.%s.ensures%d" % (l.name, k), self.spec(st, e), "lemma", None, e)
+
+
+def consts_in(z):
+    """ids of the uninterpreted constants (0-ary applications) occurring in z"""
+    out = set()
+    seen = set()
+    stack = [z]
+    while stack:
+        t = stack.pop()
+        i = t.get_id()
+        if i in seen:
+            continue
+        seen.add(i)
+        if z3.is_quantifier(t):
+            stack.append(t.body())
+            for k in range(t.num_patterns()):
+                stack.append(t.pattern(k))
+            continue
+        if z3.is_app(t):
+            if t.num_args() == 0 and t.decl().kind() == z3.Z3_OP_UNINTERPRETED:
+                out.add(i)
+            for k in range(t.num_args()):
+                stack.append(t.arg(k))
+    return out
 
 
 MUTATORS = {"append", "pop", "add", "remove", "sort", "extend", "insert", "update", "shuffle", "clear",
